@@ -3,6 +3,8 @@ package props
 import (
 	"bytes"
 	"fmt"
+	"math"
+	"math/big"
 	"strings"
 	"testing"
 
@@ -49,6 +51,38 @@ func TestC10(t *testing.T) {
 		}
 		e.feed(feedOpts{shortlexQ: 3, shortlexT: 5, sweepQ: 100, sweepT: 3000, sweepMaxLen: 64, nestQ: 60, nestT: 600, nestDepths: depths,
 			mutQ: 30000, mutT: 1000000, nextByte: false, alignment: true, noDepthSites: true}, evalBytes)
+		// 1b. number literals on the rarest conversion paths (exact ties incl. 2^-1075, the
+		// overflow threshold, 800-digit mantissas): a panic deep in the float fallback is a
+		// totality violation whatever the value
+		if e.enumStage("float-thresholds", "exact halfway literals and their neighbours for 16 threshold floats incl. 2^-1075 and the overflow tie, wrapped in 3 contexts", true) {
+			var lits []string
+			for _, x := range []float64{math.MaxFloat64, math.SmallestNonzeroFloat64, 2 * math.SmallestNonzeroFloat64, 2.2250738585072014e-308, 2.225073858507201e-308, 1, 9007199254740992, 1e22, 1e23, 5e-324, 3 * math.SmallestNonzeroFloat64, 1.7976931348623155e308, 8.41e21, 0.1, 1e-310, 6e-320} {
+				lits = append(lits, halfwayVariants(midpointDecimal(x))...)
+			}
+			half := new(big.Float).SetPrec(bigPrec).SetFloat64(math.SmallestNonzeroFloat64)
+			half.Quo(half, big.NewFloat(2))
+			hs := trimMantZeros(half.Text('e', 1100))
+			lits = append(lits, halfwayVariants(hs)...)
+			if f, ok := toFixedAny(hs); ok {
+				lits = append(lits, f, f+"0", "-"+f)
+			}
+			for i, lit := range lits {
+				if !e.cfg.Mine(i) {
+					continue
+				}
+				for _, doc := range []string{lit, "-" + lit, "[" + lit + "]", `{"k":` + lit + `}`} {
+					b := []byte(doc)
+					r.Begin("float-threshold", b)
+					if err := evalBytes("float-threshold", b); err != nil {
+						r.Fail(caseOf("C10", "float-threshold", b, err), err)
+						break
+					}
+				}
+				if r.Failed() {
+					break
+				}
+			}
+		}
 		// 2. free bytes
 		e.rapidStage("freebytes", "rapid", e.cfg.N(20000, 1500000), func(rt *rapid.T) {
 			b := rapid.SliceOfN(rapid.Byte(), 0, 48).Draw(rt, "bytes")
